@@ -5,6 +5,10 @@ import SF.Lemmas.Ema
 import SF.Lemmas.MinMax
 import SF.Lemmas.Welford
 import SF.Lemmas.Rolling
+import SF.Lemmas.Rsi
+import SF.Lemmas.MyRsi
+import SF.Lemmas.Hln
+import SF.Lemmas.Cog
 import SF.Expr
 /-
   C15 — No panic: every constructed view accepts every finite in-domain stream.
@@ -57,6 +61,29 @@ theorem max_noPanic (N : Nat) (hN : 0 < N) : (maxCoreU (α := α) N).NoPanic :=
     (Core.run_invariant_init (maxCoreU N) (MinMax.MaxInv N) (by simp [MinMax.MaxInv, maxCoreU, Spec.maxL])
       (fun s pre x h => MinMax.max_step_ok N hN s pre x h))
     (fun s xs h => by simp [maxCoreU, Spec.wmax, h.2, h.1, pure, Except.pure])
+
+theorem rsi_noPanic (N : Nat) (hN : 0 < N) : (rsiCore (α := α) N).NoPanic :=
+  noPanic_of_inv _ (Rsi.Inv N) (Spec.rsi N)
+    (Core.run_invariant_init (rsiCore N) (Rsi.Inv N) (Rsi.init_inv N) (fun s pre x h => Rsi.step_ok N hN s pre x h))
+    (fun s xs h => by simp [rsiCore, h.hout, pure, Except.pure])
+theorem myrsi_noPanic (N : Nat) (hN : 0 < N) : (myRsiCore (α := α) N).NoPanic := by
+  intro ys
+  obtain ⟨s, hs, _⟩ := Core.run_invariant_init (myRsiCore N) (MyRsi.Inv N) (MyRsi.init_inv N)
+    (fun s pre x h => MyRsi.step_ok N hN s pre x h) ys
+  refine ⟨s, hs, ?_⟩
+  simp only [myRsiCore]; split
+  · exact ⟨_, rfl⟩
+  · exact ⟨_, by simp only [assertFinite_exact, bind, Except.bind, pure, Except.pure]; rfl⟩
+theorem hln_noPanic (N : Nat) (hN : 0 < N) : (hlnCore (α := α) N).NoPanic :=
+  noPanic_of_inv _ (Hln.Inv N) (Spec.hln N)
+    (Core.run_invariant_init (hlnCore N) (Hln.Inv N)
+      ⟨by simp [hlnCore], by simp [hlnCore], fun h => absurd rfl h, fun _ => by simp [hlnCore]⟩
+      (fun s pre x h => Hln.step_ok N hN s pre x h))
+    (fun s xs h => Hln.out_eq N hN s xs h)
+theorem cog_noPanic (N : Nat) (hN : 0 < N) : (cogCore (α := α) N).NoPanic :=
+  noPanic_of_inv _ (Cog.Inv N) (Spec.cog N)
+    (Core.run_invariant_init (cogCore N) (Cog.Inv N) (by simp [Cog.Inv, cogCore, Spec.cog]) (fun s pre x h => Cog.step_ok N hN s pre x h))
+    (fun s xs h => by simp [cogCore, h.2, pure, Except.pure])
 
 section transc
 variable [Transc α]
